@@ -49,8 +49,8 @@ CLAIMED.update({
         "4/C07",
     ),
     "C18": (
-        "property-based testing: (a) checker-driven iteration of the composed simplification pass with cycle detection and pass bound, idempotence of the fixpoint under all strategies; (b) byte comparison of repeated runs of the real binary in fresh processes",
-        "Exploration: termination is decided without a clock (cycle = revisited formula; bound on passes), the fixpoint must equal apply_fixpoint and be stable under every strategy; determinism is checked by running translate/simplify/verify --save-problems three times in fresh processes on generated inputs with many predicates/symbols and comparing bytes and file sets.",
+        "property-based testing: (a) checker-driven iteration of the composed simplification pass with cycle detection and pass bound, idempotence of the fixpoint under all strategies; (b) byte comparison of repeated runs of the real binary in fresh processes, and of the saved files with the problems built in-process",
+        "Exploration: termination is decided without a clock (cycle = revisited formula; bound on passes), the fixpoint must equal apply_fixpoint and be stable under every strategy; determinism is checked by running translate/simplify/verify --save-problems (strong tasks and external tasks with several placeholders) three times in fresh processes on generated inputs with many predicates/symbols and comparing bytes and file sets.",
         "Trusted: process isolation gives fresh hash seeds; non-termination that is neither a cycle nor exceeds the pass bound cannot be observed.",
         "4/C18",
     ),
@@ -95,7 +95,7 @@ CLAIMED.update({
     ),
     "C12": (
         "property-based testing: auto-generated axioms of every problem of generated tasks are read by the strict TFF reader and evaluated under the standard interpretation (windows for quantifiers); chain structure of ordering axioms checked exactly",
-        "Exploration: ordering axioms mention exactly the declared symbolic constants, form one chain and are true when each constant is read as the input symbol it stands for; transition axioms are true in every generated I_(H,T) and cover every predicate; the preamble is evaluated on windows around generated integers (incl. 64-bit limits) and symbols.",
+        "Exploration: ordering axioms mention exactly the declared symbolic constants, (by the checker's own traversal of the syntax trees), form one chain and are true when each constant is read as the symbol of the input files it stands for (reading derived from the source files, not by inverting anthem's renaming); transition axioms are true in every generated I_(H,T) and cover every predicate; the preamble is evaluated on windows around generated integers (incl. 64-bit limits) and symbols.",
         "Trusted: standard reading of the preamble symbols; window sampling as the property states.",
         "4/C12",
     ),
@@ -121,7 +121,7 @@ CLAIMED.update({
         "4/C13",
     ),
     "C16": (
-        "mutation-based fuzzing with a crash oracle: accepted texts (repository examples, directed corner texts, generated programs/theories) under token-level mutations, through every front end and every later stage in-process under catch_unwind, sampled through the real binary; libFuzzer targets in the thorough tier",
+        "mutation-based fuzzing with a crash oracle: accepted texts (repository examples, directed corner texts, generated programs/theories) under token-level mutations, through every front end and every later stage in-process under catch_unwind, sampled through the real binary; raw bytes (invalid UTF-8) through the binary as files; libFuzzer targets in the thorough tier",
         "Exploration: no panic, abort or hang in any stage for texts of moderate size; non-zero exit implies a message on stderr; numerals beyond the integer types, huge arities, empty/comment-only files are directed cases.",
         "Trusted: catch_unwind on 512 MB stacks (stack exhaustion is observable only through the binary; deep nesting is a recorded known finding).",
         "4/C16",
@@ -133,8 +133,8 @@ CLAIMED.update({
         "4/C19",
     ),
     "C20": (
-        "model-based testing through the real binary: generated file sets and argument permutations; oracle = reference model of role assignment vs numeral markers found among axioms/conjectures of the saved forward problems",
-        "Exploration: the specification/program/user-guide/proof-outline roles observed in the saved problems equal those predicted from extensions, argument order and byte-wise directory order, for strong and external equivalence; missing required files must fail.",
+        "model-based testing through the real binary: generated file sets and argument permutations; oracle = reference model of role assignment vs numeral markers found among axioms/conjectures of the saved forward problems; metamorphic swap test in-process: the problems of (A, B) in one direction equal those of (B, A) in the opposite direction",
+        "Exploration: the specification/program/user-guide/proof-outline roles observed in the saved problems equal those predicted from extensions, argument order and byte-wise directory order, for strong and external equivalence; missing required files must fail; for unrelated random program pairs (strong, tau-star and mu) and program-vs-program external tasks the forward problems of (A, B) and the backward problems of (B, A) are the same multiset of (axioms, conjectures), names aside.",
         "Trusted: the directory-order model (depth-first, byte-wise names, hidden files included).",
         "4/C20",
     ),
